@@ -271,3 +271,7 @@ CHECK_DEADLOCK FALSE
                          "programs with statics x all payloads over {0,65,255} to MaxPay x {empty, non-empty} initial URI; table: the same programs x 6 payloads (all residues mod 3 and 4) "
                          "checked in both directions with the nonce chosen by the spec; random: up to 3 blocks, 6 encoders, binary arguments, payloads to 4 KB; distinct = programs")
     ctx.exhaustive = True
+    # history freedom of the functions of their input behind this property (Pure.tla)
+    from vt.checks import xpure
+
+    xpure.pure_part(ctx, xpure.entries_for("C04"))
